@@ -275,7 +275,25 @@ func (r *run) finalForwarded() {
 		resp, err := r.w.kvOf(90+i, n).Put(ctx, &regattapb.PutRequest{Table: []byte(tname), Key: []byte("final"), Value: []byte(fmt.Sprintf("v-final-%d", i))})
 		cancel()
 		if err != nil {
-			r.fail("C11", "wedged", "wedged:final-forwarded-write", "after faults stopped and the follower cluster had converged, a write sent to %s was answered %v after %v", n.name, err, time.Since(start))
+			// which of two things? Ground truth: the leader log entry this call produced (its value is unique),
+			// the node's own leader index now, and what the node's state machines announced during the call.
+			val := fmt.Sprintf("v-final-%d", i)
+			rev := r.revisionOfPut(tname, val)
+			li, _ := r.localLeaderIndex(n, tname)
+			announcedDuring := false
+			for _, a := range n.announced {
+				if a.table == tname && rev != 0 && a.rev >= rev && !a.at.Before(start) {
+					announcedDuring = true
+				}
+			}
+			if rev != 0 && li >= rev && announcedDuring {
+				// the node applied the write and said so while the call was in flight - but before the handler had
+				// queued its waiter (the leader's answer was still on its way): the queue keeps no history, the
+				// waiter hangs on the *next* announcement, and on a quiet table there is none before the deadline
+				r.fail("C11", "unanswered-although-announced", "unanswered-although-announced:announced-before-queued", "a write sent to %s (revision %d) was answered %v after %v although the node had applied leader index %d and announced it during the call: the announcement came before the forwarding handler had queued its waiter, and the notification queue does not remember it", n.name, rev, err, time.Since(start), li)
+				return
+			}
+			r.fail("C11", "wedged", "wedged:final-forwarded-write", "after faults stopped and the follower cluster had converged, a write sent to %s was answered %v after %v (revision %d in the leader log, node's copy at leader index %d, announced during the call: %v)", n.name, err, time.Since(start), rev, li, announcedDuring)
 			return
 		}
 		li, lerr := r.localLeaderIndex(n, tname)
@@ -285,4 +303,27 @@ func (r *run) finalForwarded() {
 		}
 		r.out.Probe("final-forwarded-write-ok")
 	}
+}
+
+// revisionOfPut finds, in the ground-truth log of the leader's table shard, the entry of a Put with the given
+// (unique) value: its index is the revision the write was given. 0 if the leader never proposed it.
+func (r *run) revisionOfPut(table, value string) uint64 {
+	sid, ok := r.leaderTables[table]
+	if !ok {
+		return 0
+	}
+	var found uint64
+	for _, e := range r.w.u.Log("L", sid) {
+		if !e.Regular {
+			continue
+		}
+		c := &regattapb.Command{}
+		if err := c.UnmarshalVT(e.Payload); err != nil {
+			continue
+		}
+		if c.Type == regattapb.Command_PUT && c.Kv != nil && string(c.Kv.Value) == value {
+			found = e.Index
+		}
+	}
+	return found
 }
